@@ -1,6 +1,6 @@
 (* C15 — routing table invariant, part A: definitions and bucket-level lemmas. *)
 From Coq Require Import List NArith Bool Lia Permutation.
-From LTV Require Import Params_gen.
+From LTV.C15 Require Import ParamsGen.
 From LTV.C15 Require Import Model ProofsMid.
 Import ListNotations.
 Local Open Scope N_scope.
